@@ -996,8 +996,12 @@ def sf_implies(ex, st, e):
     s2 = st.fork()
     s2.assume(a)
     nobl = len(ex.ctx.obls)
+    npc = len(s2.pc)
     b = ex.truth(ex.ev1(e.args[1], s2), s2)
     st.heap.update({k: v for k, v in s2.heap.items() if k not in st.heap})
+    # definitional facts introduced while evaluating the consequent (prefix functions, selections) are kept, guarded
+    for f in s2.pc[npc:]:
+        st.pc.append(z3.Implies(a, f))
     return [(st, z3.Implies(a, _b(b)))]
 
 
